@@ -272,6 +272,17 @@ def generate(tier):
                         sp += 1
                         add(build_struct(fl, assign, 'd' if r % 2 == 0 else 'o', flip, sp))
                         add(build_enum(fl, assign, 'de'[sp % 2], 'dro'[sp % 3], flip, bool(sp % 2), sp))
+    # very wide: 12 fields, one deviating field at positions 0, 1, 9, 10, 11
+    for fl in (S.Fields('t', 12), S.Fields('n', 12)):
+        for w in (None, 0, 1, 9, 10, 11):
+            for sy in ('imz' if fl.style == 't' else 'rimxz') if w is not None else 's':
+                a = ['s'] * 12
+                if w is not None:
+                    a[w] = sy
+                for flip in (0, 1):
+                    sp += 1
+                    add(build_struct(fl, ''.join(a), 'd', flip, sp))
+                    add(build_enum(fl, ''.join(a), 'd', 'd', flip, True, sp))
     # #[derive(Debug)] twins with no parameters (enum: the enum name is off by default, like the std derive)
     for sh in S.struct_shapes(3, with_empty=True) + S.enum_shapes(2, 2) + S.enum_shapes(3, 1, vmin=3):
         add(build_twin(sh))
